@@ -23,15 +23,15 @@ CHECKS = {
  'C03': ('model_checking', 'S+Mon', 'TraceMon clause C03.green at every movement of a destination branch in queue / skip-queue modes over statuses chosen by the model and the qstatus/drift families (all five statuses, stale reports, any order); design level: C03_Green and C05_Select (SelectImpl = SelectSpec) on BertE.tla.', 'TLA+ system model + trace monitors on real executions'),
  'C04': ('model_checking', 'F', 'Exhaustive within the tier: every configuration x every standing of every user, oracle Gates!ApprovalGate evaluated by TLC, each case executed on the real check_approvals with settings from the real loader.', 'TLA+ oracle enumerated by TLC, differential against the real function'),
  'C05': ('model_checking', 'F', 'Exhaustive within the tier: every destination assignment x every status assignment of the listed cascade shapes (<= 3 PRs quick, <= 4 thorough), oracle spec/QueueOracle.tla evaluated by TLC, each case executed on the real QueueCollection.', 'TLA+ oracle enumerated by TLC, differential against the real QueueCollection'),
- 'C06': ('model_checking', 'F+S', 'Function half exhaustive (all 5^k vectors, k=1..4, bypass sources, build key) against Gates!BuildGate; history half: TraceMon clause C06.gate on every real Queued / direct-merge outcome of the system exploration.', 'TLA+ oracle (TLC) + trace monitor on real histories'),
- 'C07': ('model_checking', 'F', 'Comment lists of the bounded grammar (singles in full in thorough / half of the shards in quick, pairs, triples) with constraints computed by TLC from the four implications; each executed on the real handle_comments twice (author admin or not).', 'TLA+ constraint oracle enumerated by TLC, checked on the real reactor'),
+ 'C06': ('model_checking', 'F+S', 'Function half exhaustive (all 5^k vectors, k=1..4, bypass sources, build key, two layouts of real branch objects: development and stabilization cascade) against Gates!BuildGate; history half: TraceMon clause C06.gate on every real Queued / direct-merge outcome of the system exploration.', 'TLA+ oracle (TLC) + trace monitor on real histories'),
+ 'C07': ('model_checking', 'F', 'Comment lists of the bounded grammar (singles in full in thorough / half of the shards in quick, pairs, triples) with constraints computed by TLC from the four implications; each executed on the real handle_comments twice (author admin or not); grants half: every per-author table of spec/Grants.tla (1..3 entries, every order, subsets of 3 keys rotated over the 7 bypass keys) loaded by the real settings loader and compared with job.author_bypass, the bypass_* helpers and active_options.', 'TLA+ constraint oracle enumerated by TLC, checked on the real reactor'),
  'C08': ('model_checking', 'S+Mon', 'TraceMon clauses C08.ff / C08.foreign / C08.destdel / C08.noloss on every remote operation of every real job, with one third-party action (create branch, push / force-push / rewind a source branch) injected immediately before each push of the fault base histories. Design level: C08_FF, C08_Foreign on BertE.tla.', 'third-party placement enumeration on real code judged by TLA+ trace monitors'),
  'C09': ('model_checking', 'F', 'Exhaustive within the tier: every branch subset (<= 4 of 11 quick, <= 6 of 12 thorough) x every tag subset x every member as destination, oracle spec/Cascade.tla evaluated by TLC, real BranchCascade in several discovery orders of branches and tags.', 'TLA+ oracle enumerated by TLC, differential against the real BranchCascade'),
  'C10': ('model_checking', 'S+Mon', 'TraceMon clauses C10.converge (third identical evaluation has no effect), C10.norepeat, C10.cmdonce on the real histories (events family repeats evaluations three times); C10.fresh compares a long-lived instance with a fresh OS process on the same world.', 'TLA+ trace monitors on real executions + fresh-process differential'),
- 'C11': ('model_checking', 'F', 'Exhaustive: 163,840 cases (configuration x ticket fragment x issue x every subset of 6 fix versions x 4 target lists), oracle spec/Jira.tla evaluated by TLC, each executed on the real jira_checks.', 'TLA+ oracle enumerated by TLC, differential against the real function'),
+ 'C11': ('model_checking', 'F', 'Exhaustive: 196,608 cases (configuration x ticket fragment x issue x every subset of 6 fix versions x 4 target lists; non-bypassed rows also with near-miss bypass_prefixes), oracle spec/Jira.tla evaluated by TLC, each executed on the real jira_checks.', 'TLA+ oracle enumerated by TLC, differential against the real function'),
  'C12': ('model_checking', 'S+Mon', 'TraceMon clauses C12.held.* / C12.nocomment / C12.lifted on the holds family (each hold x each position, foreign source/destination names) and on every other real history; design level: C12_Held on BertE.tla.', 'TLA+ trace monitors on real executions + model'),
  'C13': ('model_checking', 'T', 'Design level: spec/Server.tla (put_job / process_task at source-line granularity, ghost pending) exhaustively model-checked by TLC: 2 hooks with liveness, 3 hooks x 2 events x 2 keys x 4 outcomes for safety. Code level: the real BertE.put_job / process_task run under a deterministic line scheduler (sys.settrace); every schedule with <= 2 (quick) / 3 (thorough) preemptions of several scenarios is executed and validated by TLC against Server\'s transition rules and C13\'s properties (spec/TraceServer.tla).', 'TLA+ model (TLC) + systematic schedule exploration of the real methods validated by a TLA+ trace spec'),
- 'C14': ('model_checking', 'F', 'The full request matrix of spec/Api.tla (API paths x methods x sessions x parameter classes, forms, both webhook routes x credentials x repository identity x event types) is sent to the real Flask application through the test client; registered routes are compared with the specified table.', 'TLA+ table enumerated by TLC, differential against the real Flask app'),
+ 'C14': ('model_checking', 'F', 'The full request matrix of spec/Api.tla (API paths x methods x sessions x parameter classes, forms, both webhook routes x credentials x repository identity x event types incl. GitHub issue_comment / check_suite) and the login flow (host profile x organisation x logout, then every endpoint on the same session, both hosts) are sent to the real Flask application through the test client; registered routes are compared with the specified table.', 'TLA+ table enumerated by TLC, differential against the real Flask app'),
  'C15': ('model_checking', 'S+Mon', 'TraceMon clauses C15.* (Lossy computed in TLA+ from the commit DAG and the source history) on the reset family: random orders of amend / rebase / push / rewind / destination move / manual commits, then reset or force_reset, with bystander PRs.', 'TLA+ trace monitors on real executions'),
  'C16': ('fault_enumeration', 'X', 'Fault plan from spec/Secrets.tla: (job kind x git command index x fail|hang x DEBUG|INFO x password class incl. URL-special, shell-special, non-ASCII) over the measured command list of 7 job kinds; each executed cell runs the real job on a World whose BertE carries the production URL/mask objects, with a git wrapper that fails or hangs at command k while printing the remote URL; all sinks captured (log records with exception chains, stdout/stderr, job status/details/JSON, comments) and searched for every form of the secret; 6 scripted GitHub password / App flows incl. failing responses. Quick executes a stratified seeded sample of the plan, thorough about a third of all cells.', 'TLA+ fault plan + fault injection on real jobs + sentinel search in captured sinks'),
  'C17': ('model_checking', 'F+T', '(a) every ordered list of <= 3 (quick) / 4 (thorough) workflow runs over the stated alphabet: spec/BuildStatus.tla decides whether the aggregate may be SUCCESSFUL, the real AggregatedWorkflowRuns.state is computed for each. (b) spec/StatusCache.tla model-checked (cache sizes 1, 2); every sequence of <= 3/4 host updates / webhook events / polls plus seeded walks executed on the real Bitbucket client (scripted session), the real webhook route and the real bounded cache, judged by spec/TraceCache.tla.', 'TLA+ oracle + TLA+ cache model (TLC) + trace validation of real sequences'),
